@@ -5,8 +5,12 @@
    of snips); proofs: Proofs/SpaceProofs.v.
 
    Listed findings and where they appear here:
-     C16-1/2/3  (a definition inserted under a type name that is already
-                 registered)  = the histories excluded by `fresh_history`;
+     C16-1/3    (a definition inserted under a type name that is already
+                 registered by an earlier call / by a titled sub-schema of the
+                 same call)  = the histories excluded by `fresh_history`;
+     C16-2      (two definitions of ONE call with one type name) FIXED by
+                 c22ef06 and mirrored in Space.v (`batch_dup`):
+                 C16_names_unique_same_batch;
                  witnesses C16_names_unique_*_refuted, C16_readd_refs_refuted,
                  C16_readd_after_refs_refuted.
      C16-4      (calls after a failed batch) = histories containing AddRefsErr,
@@ -94,9 +98,24 @@ Theorem C16_names_unique_readd_refuted :
   exists c, ~ NoDup (def_names (run_history empty [c; c])).
 Proof. exact names_unique_readd_refuted. Qed.
 
-Theorem C16_names_unique_same_batch_refuted :
-  exists d1 d2, d_key d1 <> d_key d2 /\ ~ NoDup (def_names (run_history empty [AddRefs [d1; d2] [] None])).
-Proof. exact names_unique_same_batch_refuted. Qed.
+(* since fix c22ef06: a batch with two definitions inserted under one type name
+   (foo / Foo, a titled root and a definition) returns Err, whatever else it
+   contains; an accepted batch has pairwise distinct definition names *)
+Theorem C16_names_unique_same_batch : forall pre d1 mid d2 post n b1 b2 boxes ret,
+  d_ins d1 = InsNamed n b1 -> d_ins d2 = InsNamed n b2 ->
+  call_err (AddRefs (pre ++ d1 :: mid ++ d2 :: post) boxes ret) = true.
+Proof. exact same_batch_rejected. Qed.
+
+Theorem C16_accepted_batch_names_distinct : forall defs, batch_dup defs = None ->
+  NoDup (flat_map (fun d => ins_names' (d_ins d)) defs).
+Proof. exact accepted_batch_names_distinct. Qed.
+
+(* the rejected call is not rolled back: both entries stay and are rendered
+   (class C16-4, state after a failed batch) *)
+Theorem C16_names_unique_after_rejected_batch_refuted :
+  exists d1 d2, d_key d1 <> d_key d2 /\ call_err (AddRefs [d1; d2] [] None) = true
+    /\ ~ NoDup (def_names (run_history empty [AddRefs [d1; d2] [] None])).
+Proof. exact names_unique_after_rejected_batch_refuted. Qed.
 
 Theorem C16_names_unique_inner_title_refuted :
   exists d, ~ NoDup (def_names (run_history empty [AddRefs [d] [] None])).
@@ -118,6 +137,9 @@ Theorem C16_split_independent_partial : forall h1 h2,
   /\ NoDup (def_names (run_history empty h1)) /\ NoDup (def_names (run_history empty h2))
   /\ (forall n, In n (def_names (run_history empty h1)) -> registered (run_history empty h2) n).
 Proof. exact split_independent_partial. Qed.
+
+Example C16_accepted_batch_exists : batch_dup [wA; wB; wC] = None /\ call_err (AddRefs [wA; wB] [] None) = false.
+Proof. split; reflexivity. Qed.
 
 (* non-vacuity: a history with a cycle, a snip, shared structure, a repeated add
    and a titled root satisfies all three hypotheses *)
